@@ -803,6 +803,10 @@ class PerturbedDropletBase(DiffuseDroplet, metaclass=ABCMeta):
     def interface_distance(self, *angles: np.ndarray) -> np.ndarray:
         pass
 
+    def _interface_distance_grid(self, *angles: np.ndarray) -> np.ndarray:
+        """Interface distance for all angles returned by `polar_coordinates`"""
+        return self.interface_distance(*angles)
+
     @abstractmethod
     def interface_curvature(self, *angles: np.ndarray) -> np.ndarray:  # type: ignore
         pass
@@ -847,7 +851,7 @@ class PerturbedDropletBase(DiffuseDroplet, metaclass=ABCMeta):
         )
 
         # calculate interface distance from droplet center
-        interface = self.interface_distance(*angles)
+        interface = self._interface_distance_grid(*angles)
 
         # make the image
         if interface_width == 0 or np.issubdtype(dtype, bool):
@@ -1232,6 +1236,10 @@ class PerturbedDroplet3DAxisSym(PerturbedDropletBase):
         super().check_data()
         if not np.allclose(self.position[:2], 0):
             raise ValueError("Droplet must lie on z-axis")
+
+    def _interface_distance_grid(self, *angles: np.ndarray) -> np.ndarray:
+        """Interface distance, ignoring the polar angle of axisymmetric shapes."""
+        return self.interface_distance(angles[0])
 
     @enable_scalar_args
     def interface_distance(self, θ: np.ndarray) -> np.ndarray:  # type: ignore
